@@ -796,6 +796,91 @@ func refFlow(r *Run, wantHF, wantImg bool) {
 		})
 	}
 	r.Min("blip_embed_sites", nEmb, 1)
+	// (d) the ImageInfo a picture is built from was produced for THIS document by the same call:
+	// it is the result of a registering call (or a parameter handed down from one), never an
+	// object kept in storage that outlives the call (caller data, a global, a cache): its
+	// relationship id and media name are only meaningful in the document that allocated them
+	embedders := map[*ssa.Function]int{}
+	for _, fn := range p.ModFuncs() {
+		if reader.IsReader[fn] {
+			continue
+		}
+		allInstrs(fn, func(in ssa.Instruction) {
+			st, ok := in.(*ssa.Store)
+			if !ok {
+				return
+			}
+			fv, _ := fieldOfAddr(st.Addr)
+			if !fieldIs(p, fv, pkgDoc, "Blip", "Embed") {
+				return
+			}
+			for root := range rootsOf(st.Val) {
+				if pi := paramIndex(fn, root); pi >= 0 && typeIs(root.Type(), pkgDoc, "ImageInfo") {
+					embedders[fn] = pi
+				}
+			}
+		})
+	}
+	nPic := 0
+	for changed := true; changed; {
+		changed = false
+		for _, fn := range p.ModFuncs() {
+			allInstrs(fn, func(in ssa.Instruction) {
+				c, ok := in.(ssa.CallInstruction)
+				if !ok {
+					return
+				}
+				cal := staticCallee(c)
+				pi, isEmb := embedders[cal]
+				if !isEmb || pi >= len(c.Common().Args) {
+					return
+				}
+				arg := c.Common().Args[pi]
+				for root := range rootsOf(arg) {
+					if qi := paramIndex(fn, root); qi >= 0 && typeIs(root.Type(), pkgDoc, "ImageInfo") {
+						if _, ok := embedders[fn]; !ok {
+							embedders[fn] = qi
+							changed = true
+						}
+					}
+				}
+			})
+		}
+	}
+	for _, fn := range p.ModFuncs() {
+		allInstrs(fn, func(in ssa.Instruction) {
+			c, ok := in.(ssa.CallInstruction)
+			if !ok {
+				return
+			}
+			cal := staticCallee(c)
+			pi, isEmb := embedders[cal]
+			if !isEmb || pi >= len(c.Common().Args) {
+				return
+			}
+			nPic++
+			bad := ""
+			for root := range rootsOf(c.Common().Args[pi]) {
+				switch x := root.(type) {
+				case *ssa.Parameter:
+					if !typeIs(x.Type(), pkgDoc, "ImageInfo") {
+						bad = fmt.Sprintf("loaded out of parameter %s (%s): storage owned by the caller, which outlives this document", x.Name(), typeName(x.Type()))
+					}
+				case *ssa.Global:
+					bad = "loaded from package variable " + x.Name()
+				case *ssa.FreeVar:
+					bad = "captured from an enclosing function"
+				case *ssa.Call:
+					if cc := staticCallee(x); cc == nil || !p.inModule(cc) {
+						bad = "the result of a call the analysis cannot see into"
+					}
+				}
+			}
+			r.Check("ref-flow", fmt.Sprintf("%s:picture-from-registration@%s", shortName(fn), shortName(cal)), c.Pos(), bad == "",
+				fmt.Sprintf("%s builds a picture from an ImageInfo; it must be the one registered (media part + relationship) in this document by the same call: %s", shortName(fn), map[bool]string{true: "it is a registering call's result or a parameter handed down", false: bad}[bad == ""]))
+		})
+	}
+	r.Min("picture_builder_call_sites", nPic, 3)
 }
 
 // createsOnSuccess: every return of h that may report success is preceded by instruction st.
